@@ -526,7 +526,7 @@ func checkC13(w *World, r *Report) {
 	if dr != nil {
 		s := "p0.Stakes[(phi((φ + 1)|-1) + 1)]"
 		obj := "phi(recv.rewardLedger.GetFinality(ledger.ToLedgerKey(" + s + ".From))#0|stake.NewReward(" + s + ".From))"
-		amt := "new(uint256.Int).Mul(uint256.NewInt(uint64(" + s + ".Power)), recv.govParams.RewardPerPower())"
+		amt := mulExpr("new(uint256.Int)", "uint256.NewInt(uint64("+s+".Power))", "recv.govParams.RewardPerPower()")
 		iss := w.findCall(dr, obj+".Issue("+amt+", p1)")
 		set := w.findCall(dr, "recv.rewardLedger.SetFinality("+obj+")")
 		r.Check(iss != nil, "W-2", "doRewardTo:amount-and-owner", "each stake issues power x RewardPerPower() to the reward object of the stake's owner", "the per-stake reward is not `stake power x RewardPerPower()` issued to the stake owner's reward object", fnSite(w, dr))
@@ -727,7 +727,7 @@ func j2(w *World, r *Report) {
 	if dp != nil {
 		v := "recv.GovProposalHeader.Voters[p0.String()]#0"
 		x := "uint256.NewInt(uint64(" + v + ".Power))"
-		mul := w.findCall(dp, x+".Mul("+x+", uint256.NewInt(uint64(p1)))")
+		mul := w.findCall(dp, mulExpr(x, x, "uint256.NewInt(uint64(p1))"))
 		div := w.findCall(dp, x+".Div("+x+", uint256.NewInt(100))")
 		u64 := w.findCall(dp, x+".Uint64()")
 		ok := mul != nil && div != nil && u64 != nil && instrDominates(mul, div) && instrDominates(div, u64)
